@@ -69,8 +69,11 @@ class Builder:
         guard = [f"if {first} {{", f"    {first} = false;"] + ["    " + l for l in inner] + ["};"]
         # `k` is declared anew at every level (shadowing): a scope that is not popped, or popped twice,
         # on some way out shows up as a wrong `k` in the code that runs afterwards
-        after_inner = [f'println("after-inner {w}{depth}", {v}, k);']
-        body = [f"let {v} = {depth + 1};", f"let k = {10 * (depth + 1)};"] + guard + after_inner
+        # a function literal as a SIBLING of the inner construct (before the exit under test, inside whatever encloses it):
+        # compiling it must leave the bookkeeping of the enclosing function (try depth, labels, loop stack) as it was
+        d = self.fresh("sib")
+        after_inner = [f'println("after-inner {w}{depth}", {v}, k, {d}());']
+        body = [f"let {v} = {depth + 1};", f"let k = {10 * (depth + 1)};", f"let {d} = fn() -> int {{ for q in 0..2 {{ if q == 1 {{ return {depth + 1}; }} }} 0 }};"] + guard + after_inner
         ind = lambda ls: ["    " + l for l in ls]
         pre = [f"let {first} = true;"]
         # the loop's own exits come AFTER the inner construct has finished (an inner loop must not leave its labels behind):
